@@ -38,10 +38,11 @@ def main():
     head = ("| id | file | change (abridged) | stored as detected by | last regression run (quick tier of the property), clauses | note |\n"
             "|---|---|---|---|---|---|\n")
     text = head + "\n".join(rows) + "\n\n" + \
-        f"Summary: {n} seeded changes stored; last regression run (`harness/all_mutants.py`, seed 1; seeds 2 and 3 were run as well): " \
+        f"Summary: {n} seeded changes stored; last regression run (`harness/all_mutants.py`, seed 1; the first three rounds were also run with seeds 2 and 3): " \
         f"{det} detected by the quick tier of the check named in the fourth column (the property they were written for, or C08 for " \
-        f"the index defects that were written for C02 / C15 / C17), {n - det} not: {', '.join(notdet) or '-'} (C08_m2 has nothing left to " \
-        f"break since the repair of the N look-up). " \
+        f"the index defects that were written for C02 / C15 / C17, C18 / C06 for three round-5 changes), {n - det} not: {', '.join(notdet) or '-'} (C08_m2 has nothing left to " \
+        f"break since the repair of the N look-up; C04_C04r5_m2 needs an option combination the unchanged program answers with an " \
+        f"uncaught exception, see its note). " \
         f"{missed_first} of them were missed by the first version of the respective check and led to the strengthenings named in the note column.\n"
     dp = os.path.join(ROOT, "DESIGN.md")
     s = open(dp).read()
